@@ -19,7 +19,7 @@ RULE = ("base matrix: 4 schemes x 7 userinfo shapes (absent/empty/escaped user a
 
 SCHEMES = ["http", "https", "x", ""]
 USERINFO = ["", "u@", "u:p@", "u:@", ":p@", "u%40x:p%3Ay@", "U:P@"]
-HOSTS = ["example.com", "127.0.0.1", "[::1]", "[fe80::1%25eth0]"]
+HOSTS = ["example.com", "127.0.0.1", "[::1]", "[fe80::1%25eth0]", "va.gov", "a.b."]   # v<hex>. looks like IPvFuture; trailing dot
 PORTS = ["", ":80", ":443", ":8080", ":0", ":65535"]
 PATHS = ["", "/", "/a/b.txt", "/a%2Fb/"]
 QUERIES = ["", "?a=1&b=2"]
